@@ -56,6 +56,8 @@ def run(P, rep, tier):
     r3 = rep.rule('C18-R3', 'a reused DOM reader / writer object carries no state from one call into the next', reference=2)
     r4 = rep.rule('C18-R4', 'observers (to_bytes, ==, repr, iteration, subsections) do not mutate the tree', reference=8)
     r5 = rep.rule('C18-R5', 'no memoising decorator on a function returning a mutable value', reference=1)
+    r6 = rep.rule('C18-R6', 'records yielded by the streaming reader contain only containers of their own (none that is '
+                  'module/class-level, kept by the reader, or shared with another record)', reference=9)
     shared_seen = {}
 
     def scan_shared(path, scenario):
@@ -290,6 +292,17 @@ def run(P, rep, tier):
                             rep.ok(r5, '%s.%s' % (m.name, n.name), 'memoised, returns an immutable value')
     if not found:
         rep.ok(r5, 'package', 'no memoising decorator anywhere in the package')
+
+    # ---- R6 streaming-reader records -------------------------------------------------------------------------
+    from sa.props import reader_rules as rr
+    R_, res_ = rr.analyse(P, tier)
+    for X in sorted(res_):
+        sh = res_[X]['record_sharing']
+        if sh:
+            rep.violation(r6, 'record-sharing:%s' % X, R_.header_fn.loc(), 'the record yielded for a %s header is not the consumer\'s own: %s; '
+                          'a consumer that edits it changes other records / later parses' % (X, '; '.join(sh)), path=[R_.entry.short])
+        else:
+            rep.ok(r6, X)
 
 
 def _may_return_mutable(fn):
